@@ -4,7 +4,9 @@ Domain (DESIGN): version {1.0, 1.1} x request Connection header {absent, close, 
 "close, x", upgrade} x method {GET, HEAD, POST} x request body framing {none, Content-Length, chunked} x
 no_keep_alive {F, T} x handler behaviour {buffered finish, flush+finish, finish before the body is read
 (stream_request_body handler answering from prepare()), explicit `Connection: close` response header}
-= 864 combinations, each followed by a second pipelined request.  Both tiers enumerate the whole product
+= 864 combinations x transport {fast, slow: the transport accepts no output until all input (request,
+body, pipelined request) was delivered and the loop is quiescent, then everything} = 1728 cases, each
+followed by a second pipelined request.  Both tiers enumerate the whole product
 (quick: request delivered in one segment; thorough: x3 segmentations: whole / byte-wise / head|rest);
 Hypothesis additionally samples the product with random segmentation.
 
@@ -29,7 +31,7 @@ Findings on the current tree (open, see known_findings.d/C03.json + findings_inb
       body framing / early finish (c);  early finish on HTTP/1.1 closes without Connection: close (b).
 With the proposed patches applied to a scratch copy the check is quiet with zero excluded cases.
 
-Sensitivity (quick tier, seed 1, each mutant applied alone to a scratch copy of tornado/; all 7 caught):
+Sensitivity (quick tier, seed 1, each mutant applied alone to a scratch copy of tornado/; all 8 caught):
   _can_keep_alive: HTTP/1.0 keep-alive honoured without body framing   -> C03.persistence / C03.open_but_response_not_self_delimiting
   finish: `_disconnect_on_finish` not set on early finish               -> C03.persistence
   write_headers: Keep-Alive acknowledged for every HTTP/1.0 request     -> C03.keepalive_ack_on_closing_connection
@@ -37,6 +39,13 @@ Sensitivity (quick tier, seed 1, each mutant applied alone to a scratch copy of 
   _can_keep_alive: HTTP/1.1 `Connection: close` ignored                 -> C03.persistence
   write_headers: `Connection: close` not emitted for HTTP/1.1           -> C03.closing_without_connection_close
   _can_keep_alive: Connection value compared case-sensitively           -> C03.keepalive_ack_on_closing_connection
+  finish/_finish_request: early-finish rule evaluated when the last write completes (`_disconnect_on_finish or
+      not _read_finished` in _finish_request) instead of being latched in finish(): with a slow transport the
+      body is drained first, the connection stays open and the pipelined request is served
+                                                                        -> C03.persistence (sig ...stays_open.early_finish)
+      (found by independent mutation testing and MISSED while every case used an unlimited transport; the
+      slow-transport half of the product catches it at seeds 1, 2, 3 in the enumeration.  The two open
+      early-finish findings have header-announcement sigs only and do not cover it.)
 """
 import itertools
 
@@ -49,7 +58,7 @@ PROPERTY = "C03"
 READY = True
 RULE = (
     "full product version(2) x Connection(6) x method(3) x body framing(3) x no_keep_alive(2) x handler "
-    "behaviour(4) = 864 cases enumerated (quick: 1 segmentation, thorough: 3) plus Hypothesis samples of "
+    "behaviour(4) = 864 x transport fast/slow(2) = 1728 cases enumerated (quick: 1 segmentation, thorough: 3) plus Hypothesis samples of "
     "the same product with random request segmentation; each case pipelines a second request; "
     "non-trivial = persistence decided by >=2 factors (anything but plain HTTP/1.1 GET without body, "
     "buffered); distinct = SHA-1 of the case"
@@ -61,7 +70,7 @@ ASSUMPTIONS = [
 ]
 TECHNIQUE = "exhaustive enumeration of the factor product + property-based sampling with segmentation; predicate oracle transcribed from the statement"
 LEVEL_TEXT = (
-    "exhaustive over the 864-combination factor product of the DESIGN (3 segmentations in the thorough tier) "
+    "exhaustive over the 864-combination factor product of the DESIGN x fast/slow transport (3 segmentations in the thorough tier) "
     "for one fixed small request/response body per framing; other bodies, timeouts and TLS are not covered"
 )
 SHARDS = 16
@@ -83,8 +92,9 @@ PROGS = {
 
 
 def product(segmodes):
-    for v, c, m, f, n, b, s in itertools.product(VERSIONS, CONNS, METHODS, FRAMINGS, NKA, BEHAVIOURS, segmodes):
-        yield {"version": v, "conn": c, "method": m, "framing": f, "nka": n, "behaviour": b, "seg": s}
+    for v, c, m, f, n, b, s, slow in itertools.product(VERSIONS, CONNS, METHODS, FRAMINGS, NKA, BEHAVIOURS, segmodes,
+                                                       [False, True]):
+        yield {"version": v, "conn": c, "method": m, "framing": f, "nka": n, "behaviour": b, "seg": s, "slow": slow}
 
 
 case_s = st.fixed_dictionaries(
@@ -96,6 +106,7 @@ case_s = st.fixed_dictionaries(
         "nka": st.booleans(),
         "behaviour": st.sampled_from(BEHAVIOURS),
         "seg": st.lists(st.integers(1, 60), min_size=1, max_size=8),
+        "slow": st.booleans(),
     }
 )
 
@@ -131,14 +142,25 @@ def run_case(ctx, case):
     req = rm.build_request(method, version, conn, body=body, body_framing=framing)
     head_len = req.index(b"\r\n\r\n") + 4
     data = req + rm.SECOND_REQUEST
-    wire, closed, _logs, _s = httpharness.roundtrip(
-        rm.make_app(PROGS[beh], early=early), data,
-        segments=segments_for(case["seg"], len(req), head_len), server_kwargs={"no_keep_alive": nka},
-    )
+    slow = bool(case.get("slow"))
+    if slow:
+        # slow client: the transport accepts no output until the whole input (request, body and the
+        # pipelined request) has been delivered and the loop is quiescent; then everything is accepted
+        wire, closed, _logs, _trace = rm.roundtrip_slow(
+            rm.make_app(PROGS[beh], early=early), data,
+            segments=segments_for(case["seg"], len(req), head_len), server_kwargs={"no_keep_alive": nka},
+        )
+    else:
+        wire, closed, _logs, _s = httpharness.roundtrip(
+            rm.make_app(PROGS[beh], early=early), data,
+            segments=segments_for(case["seg"], len(req), head_len), server_kwargs={"no_keep_alive": nka},
+        )
     cls = klass(case)
     ctoken = None if conn is None else conn.strip().lower()
     multi_token = ctoken is not None and "," in ctoken
-    labels = {"http" + version, "beh_" + beh, "class_" + cls, "req_" + framing}
+    labels = {"http" + version, "beh_" + beh, "class_" + cls, "req_" + framing, "slow_transport" if slow else "fast_transport"}
+    if slow and early and framing != "none":
+        labels.add("early_finish_body_drained_before_write_completes")
     if cls == "http10_keepalive_flush":
         labels.add("http10_keepalive_flush")
     if early:
